@@ -302,6 +302,35 @@ func replayOptVec(r *Run, v optVec, rng *rand.Rand, evals *atomic.Int64) {
 					problem = append(problem, fmt.Sprintf("ClientIP in %s handler used resolver %d (ran=%v), want %d", k, g, ok, w))
 				}
 			}
+			// the route's options also hold when the route is dispatched by hand after a Lookup, directly or through a
+			// trailing-slash recommendation, and on a CloneWith copy of such a context (done from inside a handler, which has a
+			// ResponseWriter to pass on)
+			rt.MustHandle("GET", "/dispatch", func(c fox.Context) {
+				for _, target := range []string{"/t", "/t/"} {
+					for _, viaCopy := range []bool{false, true} {
+						delete(seen, "route")
+						inner, _ := newRequest("GET", "", target, "")
+						rte2, cc, _ := c.Fox().Lookup(c.Writer(), inner)
+						if rte2 == nil || cc == nil {
+							problem = append(problem, "Lookup of "+target+" found nothing")
+							continue
+						}
+						if viaCopy {
+							cp := cc.CloneWith(c.Writer(), inner)
+							rte2.Handle(cp)
+							cp.Close()
+						} else {
+							rte2.Handle(cc)
+						}
+						cc.Close()
+						if g, ok := seen["route"]; !ok || g != rc.Cfg.Res {
+							problem = append(problem, fmt.Sprintf("ClientIP in the route handler dispatched by hand for %s (copy=%v) used resolver %d (ran=%v), want %d", target, viaCopy, g, ok, rc.Cfg.Res))
+						}
+					}
+				}
+			})
+			dreq, _ := newRequest("GET", "", "/dispatch", "")
+			rt.ServeHTTP(newPlainWriter(), dreq)
 		}()
 		if len(problem) > 0 {
 			r.violation(key, map[string]any{"kind": "vector", "global_options": v.G, "route_options": rc.R,
